@@ -109,6 +109,13 @@ func strPieces(t *Term) []piece {
 		return strPieces(t.Args[0])
 	case t.Kind == "nil":
 		return nil
+	case t.Kind == "alloc" || t.Kind == "zero":
+		// an empty buffer to append to (make([]byte, 0, n), a nil slice variable)
+		if n, known := knownLen(t); known && n == 0 {
+			return nil
+		}
+	case t.Kind == "slice" && len(t.Args) == 3 && t.Args[1] == nil && t.Args[2] != nil && t.Args[2].Kind == "const" && t.Args[2].Name == "0":
+		return nil // buf[:0]
 	case t.Kind == "call":
 		a := t.Args[2:]
 		switch t.Name {
@@ -127,6 +134,11 @@ func strPieces(t *Term) []piece {
 		case "strconv.FormatInt", "strconv.FormatUint":
 			if len(a) == 2 && a[1].Kind == "const" && a[1].Name == "10" {
 				return []piece{{k: "dec", t: normInt(a[0])}}
+			}
+		case "(*encoding/base64.Encoding).AppendEncode", "(*encoding/base64.Encoding).AppendDecode", "encoding/hex.AppendEncode":
+			// dst followed by the encoding of src (an opaque piece)
+			if len(a) == 2 {
+				return append(strPieces(a[0]), piece{k: "str", t: t})
 			}
 		case "strconv.AppendInt", "strconv.AppendUint":
 			if len(a) == 3 && a[2].Kind == "const" && a[2].Name == "10" {
